@@ -530,7 +530,7 @@ CHECKS["C20"] = dict(
     pkg="c20", level="exploration",
     engine="sim / tcpsim; the statistics are read through the public stats package by name",
     rule=("rapid-generated histories (2..20 steps) against a real Redis processor in front of 1..3 simulated masters, or a real TCP processor in "
-          "front of an echo backend, with connection limit 0..3: open / close / abort (RST) up to 5 client connections, pipelined command "
+          "front of an echo backend, with connection limit 0..3: open / close / abort (RST) up to 5 client connections, a client that requests 2..14 MB of replies without reading and goes away (RST or FIN) while the proxy is blocked writing to it, pipelined command "
           "batches (GET/SET/MGET/MSET/DEL/INCR/LPUSH with wrong-type errors, PING, the unsupported KEYS, an invalid arity), backend "
           "connection drops (FIN/RST), a backend connection killed after 1..5 commands, slot migrations that force MOVED or ASK "
           "redirections; for the TCP service: the backend going down and coming back (connects fail meanwhile) and the host leaving and "
